@@ -16,6 +16,8 @@ class Context:
     def F(self):
         if self._F is None:
             self._F = _mir.Facts(_facts.load(self.repo, "debug"))
+            from . import nf as _nf
+            _nf.FACTS = self._F
         return self._F
 
     @property
